@@ -4,6 +4,8 @@ import PprofVerif.Lemmas.MergeKeys
 import PprofVerif.Lemmas.MergeHeaders
 import PprofVerif.Lemmas.MergeTop
 import PprofVerif.Lemmas.MergeTotals
+import PprofVerif.Lemmas.MergeIdem
+import PprofVerif.Lemmas.MergeHeadersPerm
 /-!
 # C03 — Merging conserves every stack's weight and symbol information
 
@@ -250,6 +252,152 @@ theorem compact_idem (p : Profile) (hv : p.Valid) (ht : Typed p) (hper : 0 ≤ p
   have hh2 : headerOf c2 = combineHeadersSpec c1 [] :=
     merge_header c1 [] hin1 (by intro q hq; simp at hq; subst hq; exact hp1) c2 hc2
   exact ⟨c1, c2, hc1, hc2, hw2, by rw [hh2, combineHeadersSpec_single c1 p [] hh1]⟩
+
+/-! ## normal form: compacting twice equals compacting once, on the full canonical form -/
+
+-- a valid, int64-typed single profile (hypotheses of the `compact_*` theorems are satisfiable)
+private def exP_ok : (exP 1 0x1000 3).Valid ∧ Typed (exP 1 0x1000 3) := by
+  refine ⟨by decide, ?_⟩
+  intro s hs; simp [exP] at hs; subst hs; simp [InI64, PV.Wire.two63]
+
+/-- **the result of `Merge` is a fixed point of `Merge`/`Compact`, id for id**: for valid
+compatible inputs `Merge` returns `r` with `Merge [r] = r` and `Compact r = r` as *profiles* —
+same ids, same table order, same samples with the same location ids, labels and values, same
+header.  (The output has ids `1..n` in first-occurrence order and every key once, so merging it
+again interns every entity in the same order under the same id: `Lemmas/MergeIdem`.) -/
+theorem merge_result_is_fixpoint (first : Profile) (rest : List Profile)
+    (hv : ∀ p ∈ first :: rest, p.Valid) (ht : ∀ p ∈ first :: rest, Typed p)
+    (hc : ∀ p ∈ rest, compatibleB first p = true) :
+    ∃ r, merge (first :: rest) = .ok r ∧ merge [r] = .ok r ∧ compact r = .ok r := by
+  obtain ⟨r, h1, h2⟩ := merge_fix first rest ⟨hv, ht, hc⟩
+  exact ⟨r, h1, h2, h2⟩
+
+/-- **`compact (compact p) = compact p` on the full canonical form** (ids, table order,
+everything), for every valid profile. -/
+theorem compact_idem_canonical (p : Profile) (hv : p.Valid) (ht : Typed p) :
+    ∃ c, compact p = .ok c ∧ compact c = .ok c := by
+  have hin : Inputs p [] := ⟨by intro q hq; simp at hq; subst hq; exact hv,
+    by intro q hq; simp at hq; subst hq; exact ht, compatibleB_self_single p⟩
+  obtain ⟨c, h1, h2⟩ := merge_fix p [] hin
+  exact ⟨c, h1, h2⟩
+
+example : ∃ c, compact (exP 1 0x1000 3) = .ok c ∧ compact c = .ok c :=
+  compact_idem_canonical _ exP_ok.1 exP_ok.2
+
+/-- **`Compact` returns a valid profile in normal form**: valid (`CheckValid` + reference
+closure), int64-typed, ids `1..n` in table order in all three tables, and no two functions /
+mappings with the same identity key. -/
+theorem compact_valid (p : Profile) (hv : p.Valid) (ht : Typed p) :
+    ∃ c, compact p = .ok c ∧ c.Valid ∧ Typed c ∧
+      c.functions.map (·.id) = List.range' 1 c.functions.length ∧
+      c.mappings.map (·.id) = List.range' 1 c.mappings.length ∧
+      c.locations.map (·.id) = List.range' 1 c.locations.length ∧
+      (c.functions.map functionKey).Nodup ∧ (c.mappings.map mappingKey).Nodup := by
+  have hin : Inputs p [] := ⟨by intro q hq; simp at hq; subst hq; exact hv,
+    by intro q hq; simp at hq; subst hq; exact ht, compatibleB_self_single p⟩
+  obtain ⟨c, hc, hval, htyp, _⟩ := merge_spec p [] hin
+  obtain ⟨c', hc', n1, n2, n3, n4, n5⟩ := merge_tables_normal p [] hin
+  rw [hc] at hc'
+  simp only [Outcome.ok.injEq] at hc'
+  subst hc'
+  exact ⟨c, hc, hval, htyp, n1, n2, n3, n4, n5⟩
+
+example : ∃ c, compact (exP 1 0x1000 3) = .ok c ∧ c.Valid := by
+  obtain ⟨c, h1, h2, _⟩ := compact_valid _ exP_ok.1 exP_ok.2
+  exact ⟨c, h1, h2⟩
+
+/-! ## which header fields depend on the order of the inputs -/
+
+/-- **header rules under a permutation of the inputs**, about `combineHeaders` itself, for all
+compatible lists with non-negative periods.  Order-independent: period (maximum), collection
+time (earliest non-zero), duration (int64 sum), and the set of comments (each once).  In input
+order: the comments are listed in order of first appearance; default sample type and doc URL
+are the first non-empty ones.  The first profile's: sample types, period type, drop-frames and
+keep-frames. -/
+theorem merge_perm_headers (f1 : Profile) (r1 : List Profile) (f2 : Profile) (r2 : List Profile)
+    (hc1 : ∀ p ∈ r1, compatibleB f1 p = true) (hc2 : ∀ p ∈ r2, compatibleB f2 p = true)
+    (hper : ∀ p ∈ f1 :: r1, 0 ≤ p.period) (hp : (f1 :: r1).Perm (f2 :: r2)) :
+    ∃ h1 h2, combineHeaders f1 r1 = .ok h1 ∧ combineHeaders f2 r2 = .ok h2 ∧
+      h1.period = h2.period ∧ h1.timeNanos = h2.timeNanos ∧ h1.durationNanos = h2.durationNanos ∧
+      h1.comments.Perm h2.comments ∧ h1.comments.Nodup ∧
+      h1.comments = dedupInOrder ((f1 :: r1).flatMap (·.comments)) ∧
+      h1.defaultSampleType = firstNonEmpty ((f1 :: r1).map (·.defaultSampleType)) ∧
+      h1.docURL = firstNonEmpty ((f1 :: r1).map (·.docURL)) ∧
+      h1.sampleType = f1.sampleType ∧ h1.periodType = f1.periodType ∧
+      h1.dropFrames = f1.dropFrames ∧ h1.keepFrames = f1.keepFrames :=
+  combineHeaders_perm f1 r1 f2 r2 hc1 hc2 hper hp
+
+-- non-vacuity, and the order-dependent fields really are order-dependent: swapping two
+-- compatible profiles keeps period/time/duration and the comment set, but not the comment
+-- order, the default sample type, or drop-frames
+private def exH (c : Str) (t d per : Int) (dst drop : Str) : Profile :=
+  { sampleType := [⟨[99], [110]⟩], defaultSampleType := dst, periodType := some ⟨[99], [110]⟩, period := per,
+    samples := [], mappings := [], locations := [], functions := [], comments := [c], docURL := [],
+    dropFrames := drop, keepFrames := [], timeNanos := t, durationNanos := d }
+example : compatibleB (exH [1] 5 10 3 [7] [8]) (exH [2] 0 20 9 [6] [9]) = true ∧
+    [exH [1] 5 10 3 [7] [8], exH [2] 0 20 9 [6] [9]].Perm [exH [2] 0 20 9 [6] [9], exH [1] 5 10 3 [7] [8]] :=
+  ⟨by decide, List.Perm.swap _ _ _⟩
+example : combineHeadersSpec (exH [1] 5 10 3 [7] [8]) [exH [2] 0 20 9 [6] [9]] =
+      ⟨[⟨[99], [110]⟩], some ⟨[99], [110]⟩, [8], [], 5, 30, 9, [[1], [2]], [7], []⟩ ∧
+    combineHeadersSpec (exH [2] 0 20 9 [6] [9]) [exH [1] 5 10 3 [7] [8]] =
+      ⟨[⟨[99], [110]⟩], some ⟨[99], [110]⟩, [9], [], 5, 30, 9, [[2], [1]], [6], []⟩ := by decide
+
+/-- **order independence of `Merge`, weights and header together**: permuting valid compatible
+inputs (periods non-negative) changes neither the weight of any stack nor period, collection
+time, duration or the set of comments of the result; the remaining header fields are the
+documented functions of the input order (`merge_conserves`, `merge_perm_headers`). -/
+theorem merge_perm_full (f1 : Profile) (r1 : List Profile) (f2 : Profile) (r2 : List Profile)
+    (h1 : Inputs f1 r1) (h2 : Inputs f2 r2) (hper : ∀ p ∈ f1 :: r1, 0 ≤ p.period)
+    (hp : (f1 :: r1).Perm (f2 :: r2)) :
+    ∃ a b, merge (f1 :: r1) = .ok a ∧ merge (f2 :: r2) = .ok b ∧ (∀ k, weight a k = weight b k) ∧
+      a.period = b.period ∧ a.timeNanos = b.timeNanos ∧ a.durationNanos = b.durationNanos ∧
+      a.comments.Perm b.comments ∧ a.comments.Nodup ∧ b.comments.Nodup ∧
+      a.dropFrames = f1.dropFrames ∧ a.keepFrames = f1.keepFrames ∧
+      b.dropFrames = f2.dropFrames ∧ b.keepFrames = f2.keepFrames := by
+  obtain ⟨a, b, ha, hb, hw⟩ := merge_perm f1 r1 f2 r2 h1 h2 hp
+  have hper2 : ∀ p ∈ f2 :: r2, 0 ≤ p.period := fun p hp' => hper p (hp.mem_iff.mpr hp')
+  have hha := merge_header f1 r1 h1 hper a ha
+  have hhb := merge_header f2 r2 h2 hper2 b hb
+  obtain ⟨p1, p2, p3, p4, p5⟩ := combineHeadersSpec_perm f1 r1 f2 r2 hp
+  obtain ⟨_, _, _, _, p6⟩ := combineHeadersSpec_perm f2 r2 f1 r1 hp.symm
+  rw [← hha, ← hhb] at p1 p2 p3 p4
+  rw [← hha] at p5
+  rw [← hhb] at p6
+  exact ⟨a, b, ha, hb, hw, p1, p2, p3, p4, p5, p6,
+    congrArg Header.dropFrames hha, congrArg Header.keepFrames hha,
+    congrArg Header.dropFrames hhb, congrArg Header.keepFrames hhb⟩
+
+/-! ## purity -/
+
+/-- "Inputs are neither modified nor aliased by the output", model side.  The model is a pure
+function on values, so the only content this obligation has here is that the result is
+determined by the fourteen exported fields of each input — exactly the fields whose snapshot
+the harness compares before and after the call (`purity/input-modified`); there is no hidden
+state a call could leave behind or pick up.  (This is deliberately trivial.  The aliasing half —
+no cell of the result is reachable from an input — cannot be expressed in an id-based model
+and is checked on the real code by reflect reachability over every pointer, slice and map
+field, `harness/c03_reach.go`, with one seeded mutant per field kind in `selftest/C03`.) -/
+theorem merge_result_determined_by_exported_fields (ps qs : List Profile)
+    (h : List.Forall₂ (fun p q : Profile =>
+      p.sampleType = q.sampleType ∧ p.defaultSampleType = q.defaultSampleType ∧ p.samples = q.samples ∧
+      p.mappings = q.mappings ∧ p.locations = q.locations ∧ p.functions = q.functions ∧
+      p.comments = q.comments ∧ p.docURL = q.docURL ∧ p.dropFrames = q.dropFrames ∧
+      p.keepFrames = q.keepFrames ∧ p.timeNanos = q.timeNanos ∧ p.durationNanos = q.durationNanos ∧
+      p.periodType = q.periodType ∧ p.period = q.period) ps qs) :
+    merge ps = merge qs := by
+  have : ps = qs := by
+    induction h with
+    | nil => rfl
+    | @cons p q ps qs hpq _ ih =>
+      cases p; cases q
+      simp only at hpq
+      obtain ⟨a1, a2, a3, a4, a5, a6, a7, a8, a9, a10, a11, a12, a13, a14⟩ := hpq
+      subst a1 a2 a3 a4 a5 a6 a7 a8 a9 a10 a11 a12 a13 a14
+      rw [ih]
+  rw [this]
+
+example : List.Forall₂ (fun p q : Profile => p.samples = q.samples) [exP 1 0x1000 3] [exP 1 0x1000 3] :=
+  List.Forall₂.cons rfl List.Forall₂.nil
 
 /-- **per-type totals are conserved**: the element-wise int64 sum of all sample values of the
 result equals the sum over the inputs of their totals. -/
